@@ -18,15 +18,23 @@ Check (eq_refl : spec_binary {| ce_classes := []; ce_enums := []; ce_objects := 
 Check (eq_refl : spec_assignable {| ce_classes := []; ce_enums := []; ce_objects := []; ce_this := None |} T_DOUBLE DConstInteger = false).
 Check (eq_refl : spec_castable {| ce_classes := []; ce_enums := []; ce_objects := []; ce_this := None |} T_DOUBLE DConstInteger = true).
 Check (C05_accepted_expressions_are_typed : forall E env s0, envwf (List.length (bs_locals s0)) env ->
-  forall e, frag env e = true -> forall s a s', Rel s0 s -> walk_rvalue E env e s = (V a, s') ->
+  forall e, frag E env e = true -> forall s a s', Rel s0 s -> walk_rvalue E env e s = (V a, s') ->
   Typed E (ctx_of env s0) e (operand_tdesc a)).
 Check (C05_ill_typed_expressions_are_rejected : forall E env s0 e,
-  envwf (List.length (bs_locals s0)) env -> frag env e = true ->
+  envwf (List.length (bs_locals s0)) env -> frag E env e = true ->
   (forall d, ~ Typed E (ctx_of env s0) e d) -> forall a s', walk_rvalue E env e s0 <> (V a, s')).
 Check (C05_typed_example).
 (* the typing relation and the fragment are pinned by evaluation: a local identifier is in the fragment, a member access is not *)
-Check (eq_refl : frag [("x"%string, (0, DLet))] (EUnary UMinus (EIdent "x")) = true).
-Check (eq_refl : frag [("x"%string, (0, DLet))] (EMember (EIdent "x") "p") = false).
+Check (eq_refl : frag {| ce_classes := []; ce_enums := []; ce_objects := []; ce_this := None |} [("x"%string, (0, DLet))] (EUnary UMinus (EIdent "x")) = true).
+Check (eq_refl : frag {| ce_classes := []; ce_enums := []; ce_objects := []; ce_this := None |} [("x"%string, (0, DLet))] (EMember (EIdent "x") "p") = true).
+Check (eq_refl : frag {| ce_classes := []; ce_enums := []; ce_objects := []; ce_this := None |} [("x"%string, (0, DLet))] (ECall (EIdent "x") []) = false).
+Check (eq_refl : frag {| ce_classes := []; ce_enums := []; ce_objects := []; ce_this := None |} [] (EIdent "Math") = false).
+Check (C05_typed_example_members).
+Check (TyMember : forall E G o p dobj ty cls dc pi d, Typed E G o dobj -> concrete dobj = Some ty -> class_of_type ty = Some cls -> get_property E cls p = Some (dc, pi) ->
+    pi_readable pi = true -> concrete d = Some (pi_type pi) -> Typed E G (EMember o p) d).
+Check (TyAs : forall E G v path dv t d, Typed E G v dv -> annotated_type E path = Some t -> spec_castable E t (ecsd dv) = true -> concrete d = Some t -> Typed E G (EAs v path) d).
+Check (TySubscript : forall E G o ix dobj di e d, Typed E G o dobj -> Typed E G ix di -> spec_subscript dobj di = Some e -> concrete d = Some e -> Typed E G (ESubscript o ix) d).
+Check (TyObject : forall E G x c, G x = None -> assoc x (ce_objects E) = Some c -> Typed E G (EIdent x) (DConcrete (TPointer (NClass c)))).
 Check (TyLogical : forall E G op b l r, bop_of op = Some b -> binop_class b = KLogical -> Typed E G l (DConcrete T_BOOL) -> Typed E G r (DConcrete T_BOOL) ->
     Typed E G (EBinary op l r) (DConcrete T_BOOL)).
 Check (TyTernary : forall E G c a b da db t d, Typed E G c (DConcrete T_BOOL) -> Typed E G a da -> Typed E G b db -> common_concrete E da db = Some t ->
